@@ -193,6 +193,33 @@ CHECKS["C20"] = (
     "DESIGN.md section 3, C20",
 )
 
+CHECKS["C13"] = (
+    "model_checking",
+    "explicit-state search over merge and builder histories against an independent reference precedence model",
+    "Every sequence of <=3 sources over bounded universes of nested maps (depth <=3, keys a,b, explicit / default / list / map leaves) is "
+    "merged with the real deep_update and compared with a reference merge, and every source with its pristine form. Every history of <=4 "
+    "real builder calls (+ final create) on one builder and two-builder histories of <=2+<=3 events, each in a fresh interpreter over 3 YAML "
+    "documents x 7 override values x {c, cpp, py}, plus the full CLI product flags x standard x file order: everything a created context "
+    "reports (sections, get_option, get_config_value*, probe template, --list-configuration) is compared with the reference precedence, and "
+    "earlier contexts are re-observed after every later event.",
+    "Alphabets stand for all configurations; re-create on the same builder is modelled as cumulative (same-builder sharing is a statistic); "
+    "built-in defaults are read from properties.yaml by the harness; PyYAML is trusted.",
+    "DESIGN.md section 3, C13",
+)
+CHECKS["C16"] = (
+    "model_checking",
+    "explicit-state search over template-lookup histories + exhaustive configuration and name enumeration",
+    "For all 31 classes reachable from pydsdl.Any, every pair of subsets of ancestor-named templates in a real user directory and a stub "
+    "built-in package, both search policies, permuted directory listings and two layouts, the real DSDLTemplateLoader is searched over lookup "
+    "histories to the fixpoint (plus unabstracted histories of <=2 lookups); every result is compared with the cold result and a BFS-distance "
+    "reference and real DSDLCodeGenerators must agree. The full truth table of all instance tests and aliases, and every pristine filter, test "
+    "and global name (with filter_/is_/uses_ prefixes) is enumerated through real generators of all four languages.",
+    "BFS state deduplication assumes loader state lives in containers of the instance/class/module (plain <=2 histories and pristine-process "
+    "confirmation do not); Jinja default globals are not treated as reserved; under two sources both 'nearest over the union' and 'user first' "
+    "are accepted.",
+    "DESIGN.md section 3, C16",
+)
+
 ALL = [f"C{i:02d}" for i in range(1, 21)]
 
 
